@@ -37,7 +37,7 @@ def translate(F: cs.Function, bind):
     """bind(i_in, name, k, n) -> S for nonzero k of input i_in.
     Returns (outputs: list[(name, list[S])], info dict)."""
     if F.class_name() != "SXFunction":
-        F = F.expand()
+        F = F.expand("F", {"allow_duplicate_io_names": True})
     n_ins = F.n_instructions()
     w = [None] * F.sz_w()
     wb = [None] * F.sz_w()  # boolean forms
